@@ -10,25 +10,24 @@ rm -rf $WT; git -C /repo worktree prune; git -C /repo worktree add --detach $WT 
 cleanup() { git -C /repo worktree remove --force $WT >/dev/null 2>&1; rm -rf $WT; }
 trap cleanup EXIT
 cd $WT
-mkdir -p out/m; cp $SRC/* out/m/
 MK=$(basename $SRC)
+mkdir -p out/$MK; cp -r $SRC/* out/$MK/
 CMD=$(python3 -c "
 import json,re
 c=json.load(open('$SRC/meta.json'))['demo_build_and_run']
 c=re.sub(r'/tmp/mut2?/C[0-9]+/','',c)          # agent worktree prefix -> relative to the scratch worktree
 c=re.sub(r'^cd\s+\S*\s*&&\s*','',c)
-c=c.replace('out/$MK','out/m')
 print(c)")
 cfg() { cmake -G Ninja -B _build -DCMAKE_BUILD_TYPE=RelWithDebInfo -DBUILD_TESTING=ON >/dev/null 2>&1 && cmake --build _build >/dev/null 2>&1; }
 cfg || { echo "FAIL: clean build"; exit 1; }
 ( timeout 300 bash -c "$CMD" ) >out/unpatched.log 2>&1; U=$?
-git apply out/m/patch.diff || { echo "FAIL: patch does not apply"; exit 1; }
+git apply out/$MK/patch.diff || { echo "FAIL: patch does not apply"; exit 1; }
 cfg || { echo "FAIL: patched build"; exit 1; }
 T=$(timeout 900 ctest --test-dir _build -j8 --timeout 900 2>&1 | grep -E "tests passed|tests failed")
 ( timeout 300 bash -c "$CMD" ) >out/patched.log 2>&1; P=$?
 echo "$NAME: demo unpatched rc=$U, patched rc=$P, ctest: $T"
 if [ $U -eq 0 ] && [ $P -ne 0 ] && echo "$T" | grep -q "100% tests passed"; then
-  mkdir -p /verif/seeded/$NAME; cp out/m/* /verif/seeded/$NAME/
+  mkdir -p /verif/seeded/$NAME; cp -r out/$MK/* /verif/seeded/$NAME/
   python3 - <<PY
 import json
 p='/verif/seeded/$NAME/meta.json'
